@@ -27,6 +27,15 @@ def case_i(xs, q, lay="c"):
     return {"line": f"I lower {t_vec(xs, gen.fi, lay)} {gen.fi(q)}", "meta": {"xs": xs, "q": q}}
 
 
+def case_g(xs, q, lay="c"):
+    import vlib
+    return {"line": f"G lower {t_vec(xs, vlib.ff32, lay)} {vlib.ff32(q)}", "meta": {"xs": xs, "q": q}}
+
+
+def case_j(xs, q, lay="c"):
+    return {"line": f"J lower {t_vec(xs, gen.fi, lay)} {gen.fi(q)}", "meta": {"xs": xs, "q": q}}
+
+
 def case_f(xs, q, lay="c"):
     return {"line": f"F lower {t_vec(xs, ff, lay)} {ff(q)}", "meta": {"xs": xs, "q": q}}
 
@@ -50,6 +59,25 @@ def generate(rng, tier):
         xs = gen.axis_i(rng, n)
         for q in gen.queries_i(rng, xs, 10, ext=True):
             cases.append(case_i(xs, q, rng.choice(gen.LAYS_1D)))
+    # f32 and i32 axes
+    from props import c01
+    import vlib
+    for _ in range(reps):
+        g = c01.gen_case_g(rng)
+        if g:
+            xs = g[2]
+            span = xs[-1] - xs[0]
+            qs = g[4] + [vlib.f32_round(xs[0] - span), vlib.f32_round(xs[-1] + span), math.inf, -math.inf, 3.0e38, -3.0e38]
+            for q in qs:
+                cases.append(case_g(xs, q, rng.choice(gen.LAYS_1D)))
+        n = rng.choice([2, 3, 4, 5, 7, 10, 17])
+        xi = gen.axis_i(rng, n, rng.choice(["unit", "uniform", "random", "evenish", "gappy", "small"]))
+        for q in gen.queries_i(rng, xi, 8, ext=True):
+            cases.append(case_j(xi, q, rng.choice(gen.LAYS_1D)))
+        a, b = -rng.randint(2 ** 29, 2 ** 30 - 1), rng.randint(2 ** 29, 2 ** 30 - 1)      # span < 2^31, products by n-1 are not
+        xi = sorted({a, b} | {rng.randint(a + 1, b - 1) for _ in range(n - 2)})
+        for q in [xi[0], xi[-1]] + [rng.randint(a, b) for _ in range(4)]:
+            cases.append(case_j(xi, q, rng.choice(gen.LAYS_1D)))
     # extreme magnitudes: the span of the axis is close to the largest finite value of the element type (but finite), so anything
     # computed as (q - first) * (n - 1), q * n, first + last ... overflows, while span, offsets and their quotients do not
     for _ in range(reps):
